@@ -191,6 +191,13 @@ def _run(sb, case, r):
             loc_text, _ = materialise_loc(sb, v['loc'], f'e{key}', conf_dir)
             env_vals[key] = v['scheme'] + (':' + loc_text if v['loc'] != 'none' else '')
         os.environ[f'NDN_CLIENT_{key.upper()}'] = env_vals[key]
+    if case.get('keyfile_in_pib'):
+        # every existing pib directory of this case happens to contain a directory named like the default key store: that has
+        # no bearing on where the tpm is looked for
+        for base, dirs, _files in list(os.walk(sb.root)):
+            for dname in dirs:
+                if 'pib' in dname and 'ndnsec-key-file' not in base:
+                    os.makedirs(os.path.join(base, dname, 'ndnsec-key-file'), exist_ok=True)
     # ---- reference resolution -------------------------------------------------------------------------------------
     want = {}
     sources = {}
@@ -354,7 +361,8 @@ def _case(draw):
                     'tpm': draw(st.one_of(st.none(), _TPM))},
             'default_exists': {'pib': [draw(st.booleans()), draw(st.booleans())], 'tpm': [draw(st.booleans()), draw(st.booleans())]},
             'open_keychain': draw(st.booleans()), 'reread': draw(st.sampled_from([None, None, 0, 5])),
-            'symlink': draw(st.sampled_from([False, False, True])), 'late_env': draw(st.sampled_from([False, False, True]))}
+            'symlink': draw(st.sampled_from([False, False, True])), 'late_env': draw(st.sampled_from([False, False, True])),
+            'keyfile_in_pib': draw(st.sampled_from([False, True]))}
 
 
 def _grid(tier):
@@ -446,6 +454,7 @@ def _face_case(draw):
 def run_linux(case):
     r = Result()
     sb = Sandbox()
+    restore = []
     try:
         p = sb.platform
         if type(p).__name__ != 'Linux':
@@ -456,13 +465,18 @@ def run_linux(case):
             r.bad('C20/linux/home-conf-path', str(paths))
         if p.default_pib_paths() != [os.path.join(sb.home, '.ndn')] or p.default_tpm_paths() != [os.path.join(sb.home, '.ndn', 'ndnsec-key-file')]:
             r.bad('C20/linux/default-store-paths', f'{p.default_pib_paths()} {p.default_tpm_paths()}')
-        if any(os.path.exists(x) for x in paths[1:]) or os.path.exists('/run/nfd/nfd.sock') or os.path.exists('/run/nfd.sock'):
+        if any(os.path.exists(x) for x in paths[1:]):
             r.discarded = True
             return r
+        # which of the two forwarder sockets "exist" is part of the case (os.path.exists answers for exactly these two paths)
+        socks = {'/run/nfd/nfd.sock': bool(case.get('sock_new')), '/run/nfd.sock': bool(case.get('sock_old'))}
+        real_exists = os.path.exists
+        os.path.exists = lambda pth: socks[pth] if pth in socks else real_exists(pth)
+        restore.append(real_exists)
         ndn = os.path.join(sb.home, '.ndn')
         if case['home_dir']:
             os.makedirs(os.path.join(ndn, 'ndnsec-key-file') if case['tpm_dir'] else ndn, exist_ok=True)
-        want_t = 'unix:///run/nfd/nfd.sock'
+        want_t = 'unix:///run/nfd.sock' if (case.get('sock_old') and not case.get('sock_new')) else 'unix:///run/nfd/nfd.sock'
         if case['conf'] is not None and case['home_dir']:
             with open(os.path.join(ndn, 'client.conf'), 'w') as f:
                 f.write(f'; comment\ntransport={case["conf"]}\n')
@@ -479,14 +493,17 @@ def run_linux(case):
         if case['home_dir'] and case['tpm_dir'] and got['tpm'] != 'tpm-file:' + os.path.join(ndn, 'ndnsec-key-file'):
             r.bad('C20/linux/tpm', f'{got["tpm"]!r}')
     finally:
+        if restore:
+            os.path.exists = restore[0]
         sb.close()
-    r.key = (case['home_dir'], case['tpm_dir'], case['conf'] is not None, case['env'] is not None)
+    r.key = (case['home_dir'], case['tpm_dir'], case['conf'] is not None, case['env'] is not None, bool(case.get('sock_new')), bool(case.get('sock_old')))
     return r
 
 
 def _linux_grid(tier):
     for home_dir, tpm_dir, conf, env in itertools.product([False, True], [False, True], [None, 'tcp://1.2.3.4:6363'], [None, 'udp://5.6.7.8']):
-        yield {'home_dir': home_dir, 'tpm_dir': tpm_dir, 'conf': conf, 'env': env}
+        for sock_new, sock_old in itertools.product([False, True], [False, True]):
+            yield {'home_dir': home_dir, 'tpm_dir': tpm_dir, 'conf': conf, 'env': env, 'sock_new': sock_new, 'sock_old': sock_old}
 
 
 SUBCHECKS = {
